@@ -1722,7 +1722,8 @@ class IRGenerator:
                 route_data_types.append(data_type)
 
         # Recurse on dependencies
-        output_types_by_ns, output_routes_by_ns = self._find_dependencies(route_data_types)
+        output_types_by_ns, output_routes_by_ns, output_aliases_by_ns = \
+            self._find_dependencies(route_data_types)
 
         # Update the IR representation. This involves editing the data types and
         # routes for each namespace.
@@ -1730,6 +1731,12 @@ class IRGenerator:
             data_types = list(set(output_types_by_ns[namespace.name]))  # defaults to empty list
             namespace.data_types = data_types
             namespace.data_type_by_name = {d.name: d for d in data_types}
+
+            # Aliases outside the closure may refer to types that were just
+            # removed; keep only those the closure reaches.
+            aliases = output_aliases_by_ns[namespace.name]  # defaults to empty list
+            namespace.aliases = aliases
+            namespace.alias_by_name = {a.name: a for a in aliases}
 
             output_route_reprs = [output_route.name_with_version()
                                   for output_route in output_routes_by_ns[namespace.name]]
@@ -1758,7 +1765,11 @@ class IRGenerator:
         seen = set()
         for t in data_types:
             self._find_dependencies_recursive(t, seen, output_types, output_routes)
-        return output_types, output_routes
+        output_aliases = defaultdict(list)
+        for t in seen:
+            if is_alias(t):
+                output_aliases[t.namespace.name].append(t)
+        return output_types, output_routes, output_aliases
 
     def _find_dependencies_recursive(self, data_type, seen, output_types,
                                      output_routes, type_context=None):
